@@ -37,4 +37,87 @@ PROFILES = {
 }
 MONITORS = [mon_copy]
 
-explore, execute = sessioncheck.make(PROFILES, MONITORS, PROPERTY)
+# ops that edit their target and create no object (and draw no uuid): leaving them out of a replay
+# keeps every later object reference and id in place
+PURE_EDITS = ("set_values", "set_dtype", "v_append", "v_extend", "v_insert", "v_setitem", "v_remove",
+              "v_remove_at", "v_item_mutate", "reassign_values", "rename", "set_attr", "set_card",
+              "set_card2", "reorder", "clean")
+COPY_OPS = ("clone", "export_leaf", "template_clone", "clone_twice")
+
+
+def differential(res, replay):
+    """'No edit of a copy ever changes the original' also in its delayed form: replay the history
+    without the operations that only edited copy-derived trees; every object outside those trees
+    must end up exactly as in the full run."""
+    from simkit.monitors import root_index, subtree_indices
+    from simkit.session import signature
+    info = res.extra.get("steps_info") or []
+    snaps = [s_ for s_ in (res.extra.get("snapshots") or []) if s_ is not None]
+    if not info or len(snaps) != len(info):
+        return
+    derived = set()        # registry indices of objects that belong to copies
+    leave_out = set()
+    for k, st in enumerate(info):
+        post = snaps[k]
+        args = set(st["arg_idx"])
+        if st["op"] in COPY_OPS and st["outcome"] == "ret":
+            for key in ("new", "again"):
+                if st.get(key) is not None and st[key] < len(post["objs"]):
+                    derived.update(subtree_indices(post, st[key]))
+            continue
+        if args & derived and not args <= derived:
+            return          # a copy and an original meet in one operation: no longer independent
+        if args & derived and st["op"] in ("get_values", "save"):
+            return          # content of a copy leaves it through the harness (a held list, a file)
+        if args and args <= derived:
+            derived.update(range(st["n_pre"], len(post["objs"])))     # what the op created
+            if st["op"] in PURE_EDITS and st["outcome"] == "ret":
+                leave_out.add(st["step"])
+    if not leave_out:
+        return
+    res.stats["differential_replays"] = res.stats.get("differential_replays", 0) + 1
+    other = replay(res.case, leave_out)
+    # the two runs must have registered the same objects at every step they share: if an op
+    # resolved or ended differently (a name that is free in one run and taken in the other), the
+    # object numbering diverges and there is nothing to compare
+    all_a = res.extra.get("snapshots") or []
+    all_b = other.extra.get("snapshots") or []
+    if len(all_a) != len(all_b):
+        return
+    for sa, sb in zip(all_a, all_b):
+        if sa is not None and sb is not None and len(sa["objs"]) != len(sb["objs"]):
+            return
+    final_a = snaps[-1]
+    snaps_b = [s_ for s_ in (other.extra.get("snapshots") or []) if s_ is not None]
+    if not snaps_b:
+        return
+    final_b = snaps_b[-1]
+    if len(final_a["objs"]) != len(final_b["objs"]):
+        return      # the registries diverged (an op resolved differently): nothing to compare
+    copy_derived = derived
+    def no_ids(rec):
+        # ids come from one seeded stream: leaving out an op that draws from it shifts the ids
+        # of everything created later; the comparison is about content
+        out = dict(rec)
+        oid = out.pop("id", None)
+        if out.get("name") is not None and out["name"][1] == oid:
+            out["name"] = ["str", "<id>"]
+        return out
+    for i, (ra, rb) in enumerate(zip(final_a["objs"], final_b["objs"])):
+        if i in copy_derived:
+            continue
+        ra, rb = no_ids(ra), no_ids(rb)
+        if ra != rb:
+            keys = [k_ for k_ in sorted(set(ra) | set(rb)) if ra.get(k_) != rb.get(k_)]
+            steps = sorted(leave_out)
+            res.violation = {
+                "monitor": "copy.delayed-independence", "step": len(res.case["ops"]),
+                "op": {"op": "differential"}, "labels": [], "outcome": ["ret"],
+                "message": "obj#%d ends up different in %r when the edits of copies (steps %r) are "
+                           "left out of the history: %r vs %r" % (i, keys, steps[:6],
+                                                                  ra.get(keys[0]), rb.get(keys[0])),
+                "signature": signature("copy.delayed-independence", "differential", [])}
+            return
+
+
+explore, execute = sessioncheck.make(PROFILES, MONITORS, PROPERTY, differential=differential)
